@@ -35,7 +35,14 @@ func HandleSelect(deps ServerDeps, conn net.Conn, tag string, parts []string, st
 	}
 
 	folder := strings.Trim(parts[2], "\"")
-	state.SelectedFolder = folder
+
+	// RFC 3501 6.3.1: the currently selected mailbox is deselected before the new selection is attempted,
+	// so a failed SELECT/EXAMINE leaves no mailbox selected
+	state.SelectedMailboxID = 0
+	state.IsRoleMailbox = false
+	state.SelectedRoleMailboxID = 0
+	state.SelectedFolder = ""
+	state.ReadOnly = false
 
 	// Check if this is a role mailbox path (e.g., "Roles/ceo@openmail.lk/INBOX")
 	var targetDB *sql.DB
@@ -109,6 +116,7 @@ func HandleSelect(deps ServerDeps, conn net.Conn, tag string, parts []string, st
 	}
 
 	state.SelectedMailboxID = mailboxID
+	state.SelectedFolder = folder
 	state.ReadOnly = strings.ToUpper(parts[1]) == "EXAMINE"
 
 	// Get mailbox info (UID validity and next UID)
